@@ -36,6 +36,9 @@ def gen_cases(rng, tier):
         c['obs'] = ['flatten']
         cases.append(c)
     # library-built circuits, modifier-applied then flattened: order, schedule, indices and Stim program must be identical
+    # one long experiment: 12 cycles, whose flattened relation graph is > 200 layers deep (the nested one never is)
+    cases.append({'k': 'repcode', 'desc': {'src': 'chain', 'length': 3, 'refocus': True}, 'init': [0, 1], 'cycles': 12,
+                  'env': {'READOUT': 2.0, 'MICROWAVE': 1.0, 'FLUX': 1.0, 'RESET': 2.0}, 'obs': ['structure', 'unrolled', 'flat']})
     nlib = 20 if tier == 'quick' else 250
     for _ in range(nlib):
         c = libgen.gen_repcode(rng, max_d=3 if tier == 'quick' else 5, max_cycles=5 if tier == 'quick' else 8)
